@@ -1,7 +1,8 @@
 /-
 Model of the equilibrium residual functions of chempy (property C07; imported by C08).
 
-Mirrors, for `rref_equil = False`, `rref_preserv = False`, `new_eq_params = True`:
+Mirrors, for `new_eq_params = True` (the `rref_equil` / `rref_preserv` options: see the last section — the row
+reduction itself is external and enters as a parameter):
 
 * chempy/_util.py          `prodpow`, `vec_dot_vec`, `mat_dot_vec`
 * chempy/chemistry.py      `equilibrium_quotient`, `Reaction._xprecipitate_stoich`,
@@ -36,8 +37,7 @@ Outside the modelled domain (the model answers `.error "shape"` / the harness ne
 `len(yvec) ≠ ns` or `len(params) ≠ ns + nr` (numpy broadcasting / silent zip truncation decide
 what happens in Python), reaction keys that are not substance keys (excluded by the constructor's
 `check_substance_keys`), species with `composition = None`, non-integer stoichiometric
-coefficients or composition counts, `new_eq_params = False`, the `rref_*` options (sympy row
-reduction; see notes/C07.md), `NumSysLinTanh` (its `f` raises TypeError for every system whose
+coefficients or composition counts, `new_eq_params = False`, sympy's row reduction itself, `NumSysLinTanh` (its `f` raises TypeError for every system whose
 species have a composition: `min_` is called with one argument but defined with two).
 -/
 import ChemModel.Basic.Num
@@ -364,6 +364,114 @@ def dotRow (row : List Int) (v : List α) : α :=
 def compositionConservation (s : EqSystem) (concs init : List α) : List Nat × List α × List α :=
   let (B, ck) := compositionBalanceVectors s
   (ck, B.map (dotRow · concs), B.map (dotRow · init))
+
+/-! ## The `rref_equil` / `rref_preserv` configurations
+
+The row reduction itself is EXTERNAL (`pyneqsys.symbolic.linear_rref` = sympy `Matrix.rref()` of the augmented
+matrix, pivot rows only).  It is not modelled: its output `(rA, rb)` is a parameter (`Reduced`).  What chempy does
+around it is modelled: which system is handed to it (`stoichs(non_precip_rids) | log ks`, resp. `B | B·c₀`), that the
+reduced constants are `exp(rb)`, that the reduced rows (a plain list of lists, possibly with non-integer entries) are
+used as exponents / coefficients, and `zip` truncation.  The theorems (Props/C07.lean) assume `RowEquiv` between the
+input and the output of the reducer; the harness checks that hypothesis exactly on every generated instance. -/
+
+/-- output `(rA, rb)` of the external `linear_rref(A, b)` -/
+structure Reduced (α : Type) where
+  rA : List (List α)
+  rb : List α
+
+/-- what `stoichs_constants(eq_params, rref=True)` hands to `linear_rref`: `(stoichs(non_precip_rids), map(log, eq_params))` -/
+def rrefInputEquil [HasLog α] (A : List (List Int)) (ks : List α) : List (List α) × List α :=
+  (intMat A, ks.map HasLog.log)
+
+/-- `EqSystem.stoichs_constants(eq_params, rref=True)` given the reducer's output: `(rA.tolist(), list(map(exp, rb)))` -/
+def stoichsConstantsRref [HasExp α] (red : Reduced α) : List (List α) × List α :=
+  (red.rA, red.rb.map HasExp.exp)
+
+/-- one entry of `prodpow(bases, A')` for a reduced (in general non-integer) exponent row: `x ** e` through `HasRPow`
+    (defined for positive bases; a non-positive base under a fractional exponent is nan/complex in Python) -/
+def prodPowRowR [HasRPow α] (bases row : List α) : α :=
+  (List.zipWith HasRPow.rpow bases row).foldl (· * ·) one
+
+/-- a row of `rA * Matrix(len(x), 1, x)` (start value 0) -/
+def dotA (row x : List α) : α := (List.zipWith (· * ·) row x).foldl (· + ·) zero
+
+/-- `linear_exprs(B, x, b, rref=True)` given the reducer's output for `(B, b)`:
+    `[lhs - rhs for lhs, rhs in zip(rA * Matrix(len(x), 1, x), rb)]` -/
+def linearExprsRref (red : Reduced α) (x : List α) : List α :=
+  List.zipWith (· - ·) (red.rA.map (dotA · x)) red.rb
+
+/-- the conservation block of every formulation: `linear_exprs(B, x, mat_dot_vec(B, init_concs), rref=rref_preserv)`
+    (`mat_dot_vec(B, init_concs)` is evaluated in both cases) -/
+def preservBlock (s : EqSystem) (rrefPreserv : Bool) (redP : Reduced α) (x params : List α) : Except String (List α) :=
+  let B := (compositionBalanceVectors s).1
+  match matDotVec (intMat B) (initConcsOf s params) with
+  | none => .error "TypeError"
+  | some b => .ok (if rrefPreserv then linearExprsRref redP x else linearExprs B x b)
+
+/-- `NumSysLin.f(yvec, params)` in configuration `(rref_equil, rref_preserv)`; `redE` / `redP` are the reducer's
+    outputs for the equilibrium / conservation system (ignored when the flag is off).  With both flags off this is
+    `numSysLinF` (theorem `numSysLinCfgF_false_false`). -/
+def numSysLinCfgF [HasRPow α] [HasExp α] (s : EqSystem) (precipitates : List Bool) (small : α)
+    (rrefEquil rrefPreserv : Bool) (redE redP : Reduced α) (y params : List α) : Except String (List α) :=
+  if !shapeOk s y params then .error "shape" else
+  if s.rxns.isEmpty then .error (if s.ns ≤ 1 then "TypeError" else "ValueError") else
+  let rids := nonPrecipRids s precipitates
+  let ks := eqConstants rids (eqParamsOf s params) small
+  match stoichs s rids with
+  | .error e => .error e
+  | .ok A =>
+    let fEquil : Except String (List α) :=
+      if rrefEquil then
+        let Ak := stoichsConstantsRref redE
+        .ok (List.zipWith equilResidual (Ak.1.map (prodPowRowR y)) Ak.2)
+      else
+        match prodPow y A with
+        | .error e => .error e
+        | .ok qs => .ok (List.zipWith equilResidual qs ks)
+    match fEquil with
+    | .error e => .error e
+    | .ok fe =>
+      match preservBlock s rrefPreserv redP y params with
+      | .error e => .error e
+      | .ok fp => .ok (fe ++ fp)
+
+/-- `NumSysSquare.f` in configuration `(rref_equil, rref_preserv)` -/
+def numSysSquareCfgF [HasRPow α] [HasExp α] (s : EqSystem) (precipitates : List Bool) (small : α)
+    (rrefEquil rrefPreserv : Bool) (redE redP : Reduced α) (y params : List α) : Except String (List α) :=
+  numSysLinCfgF s precipitates small rrefEquil rrefPreserv redE redP (y.map fun yi => yi * yi) params
+
+/-- `NumSysLinRel.f` in configuration `(rref_equil, rref_preserv)` -/
+def numSysLinRelCfgF [HasRPow α] [HasExp α] [Min α] (s : EqSystem) (precipitates : List Bool) (small : α)
+    (rrefEquil rrefPreserv : Bool) (redE redP : Reduced α) (y params : List α) : Except String (List α) :=
+  if !shapeOk s y params then .error "shape" else
+  match upperConcBounds s (initConcsOf s params) with
+  | .error e => .error e
+  | .ok m => numSysLinCfgF s precipitates small rrefEquil rrefPreserv redE redP (List.zipWith (· * ·) m y) params
+
+/-- `NumSysLog.f(yvec, params)` in configuration `(rref_equil, rref_preserv)` -/
+def numSysLogCfgF [HasLog α] [HasExp α] (s : EqSystem) (precipitates : List Bool) (small : α)
+    (rrefEquil rrefPreserv : Bool) (redE redP : Reduced α) (y params : List α) : Except String (List α) :=
+  if !shapeOk s y params then .error "shape" else
+  let rids := nonPrecipRids s precipitates
+  let ks := eqConstants rids (eqParamsOf s params) small
+  match stoichs s rids with
+  | .error e => .error e
+  | .ok A =>
+    let Ak : List (List α) × List α := if rrefEquil then stoichsConstantsRref redE else (intMat A, ks)
+    match matDotVecTerm Ak.1 y (Ak.2.map fun k => -(HasLog.log k)) with
+    | none => .error "TypeError"
+    | some fe =>
+      match preservBlock s rrefPreserv redP (y.map HasExp.exp) params with
+      | .error e => .error e
+      | .ok fp => .ok (fe ++ fp)
+
+/-- `EqSystem.eq_constants()` with its defaults (`non_precip_rids=()`, `eq_params=None`, `small=0`):
+    `[eq.param for eq in self.rxns]`; `rxnParams` is that list of the reactions' own constants -/
+def eqConstantsDefault (rxnParams : List α) : List α := eqConstants [] rxnParams zero
+
+/-- the parameter vector `EqSystem.root / _solve` hands to the solver:
+    `np.concatenate((init_concs, [float(elem) for elem in self.eq_constants()]))` -/
+def solverParams (initConcs rxnParams : List α) : List α := initConcs ++ eqConstantsDefault rxnParams
 
 end Numeric
 
